@@ -501,3 +501,39 @@ func (h H) commitThenApply(rule string) {
 		h.C.Check(rule+" follower-commit-tracks-last-entry", "(*Raft).onAppendEntriesRequest "+cell.name, okFirst && okEach, h.fpos(fn), "the (index, term) pair the deferred commit test reads must start at the request's prevLog pair and follow every consumed entry")
 	}
 }
+
+// entryTermFromLog (C04.2c): storage.getEntryTerm(i) answers with the term of
+// the entry the log holds at i — the value every consistency comparison
+// (prevLogTerm check, "does my entry at the snapshot index have the
+// snapshot's term") is made against. A shortcut that answers from a cache
+// (the latest snapshot's term, lastLogTerm) turns those comparisons into
+// x == x.
+func (h H) entryTermFromLog(rule string) {
+	fn := h.fn("raft:(*storage).getEntryTerm")
+	fi := h.P.Info(fn)
+	ge := h.fn("raft:(*storage).getEntry")
+	calls := h.P.CallsTo(fn, ge)
+	n := 0
+	for k, ret := range core.Returns(fn) {
+		if len(ret.Results) != 2 {
+			continue
+		}
+		n++
+		if h.P.NeverNil(retOperand(ret, 1), 0) {
+			continue // a failure
+		}
+		v := fi.Sym(retOperand(ret, 0)).String()
+		ok := false
+		for _, c := range calls {
+			args := c.Common().Args
+			if len(args) == 3 && fi.Sym(args[1]).String() == "$1" && v == fi.Sym(args[2]).String()+".term" && core.Dominates(c.(ssa.Instruction), ret) {
+				// the error handed back with it is that read's error
+				if errv, has := errValueOf(c.(*ssa.Call)); has && (errv == nil || errDerived(retOperand(ret, 1), errv, 0)) {
+					ok = true
+				}
+			}
+		}
+		h.C.Check(rule+" term-read-from-log", fmt.Sprintf("(*storage).getEntryTerm return#%d", k+1), ok, h.pos(ret), "getEntryTerm must answer with the term of the entry read from the log at the requested index (and that read's error); found "+v)
+	}
+	h.C.Floor(rule+" (returns of getEntryTerm)", n, 1)
+}
